@@ -1,5 +1,5 @@
 SPECIFICATION Spec
-CONSTANTS N = 360 DirMax = 3 LosR = 2 LosMax = 6 LosToStep = 2 LimbR = 2 LimbMax = 6 SunR = 2 SunMax = 6
+CONSTANTS N = 360 DirMax = 3 LosR = 2 LosMax = 6 LosToStep = 2 LimbR = 2 LimbMax = 6 SunR = 2 SunMax = 6 PenK = 20 PenOut = 3
 CONSTANT Kinds <- KindsAll
 CONSTANT RectShapes <- RectShapesThorough
 CONSTANT AzGrid <- AzGridThorough
@@ -9,6 +9,9 @@ CONSTANT Cones <- ConesThorough
 CONSTANT MaskGrid <- MaskGridThorough
 CONSTANT MaskAz <- MaskAzThorough
 CONSTANT MaskEl <- MaskElThorough
+CONSTANT MaskAzCfg <- MaskAzCfgThorough
+CONSTANT PenFrames <- PenFramesAll
+CONSTANT PenDist <- PenDistThorough
 CONSTANT ElMaskShapes <- ElMaskShapesAll
 CONSTANT ElMaskAz <- ElMaskAzAll
 CONSTANT ElMaskEl <- ElMaskElAll
@@ -26,6 +29,12 @@ INVARIANT MaskSound
 INVARIANT MaskTwoBranch
 INVARIANT MaskRotationEquivariant
 INVARIANT MaskComplement
+INVARIANT DirectInvertedElevationEmpty
+INVARIANT DirectMaskAsGiven
+INVARIANT ConfiguredArcAdmitted
+INVARIANT ConfigKeepsAzimuthOrder
+INVARIANT ConfigElevationUnordered
+INVARIANT PenBand
 INVARIANT LosSymmetric
 INVARIANT LosRigidInvariant
 INVARIANT LimbIsBlockedRay
